@@ -816,7 +816,7 @@ NEEDS_CLI = {"C05", "C06", "C20", "C01"}
 RULES = {
     "C01": "behaviours = document x configuration x five entry points; non-trivial = the tokenizer found at least one tag token / something was removed or listed; distinct by (source, configuration, operations)",
     "C02": "behaviours = one clean per generated document; non-trivial = the result differs from the source (something was removed); distinct by (source, configuration)",
-    "C03": "as C02",
+    "C03": "behaviours = one clean per generated document; non-trivial = the result differs from the source (something was removed); distinct by (source, configuration)",
     "C04": "behaviours = one clean per generated document; every behaviour counts (identity must hold whenever the reference finds nothing ready; the TLA+ predicate decides the antecedent); distinct by (source, configuration)",
     "C05": "behaviours = one (to, offset) pair stepped through the clock grid; non-trivial = the evaluator answered both ready and not ready along the grid (the boundary was crossed)",
     "C06": "behaviours = one target set with an evaluator call per pool name and a clean of the probe document; non-trivial = both verdicts occur",
@@ -824,8 +824,10 @@ RULES = {
     "C08": "behaviours = one tokenization per string; non-trivial = at least one tag token",
     "C09": "behaviours = parse + clean of one rendered tag; non-trivial = the tag has at least one attribute",
     "C10": "behaviours = one tree per token sequence; non-trivial = at least one element (pair) in the tree",
-    "C11": "as C02 on unwrap documents", "C12": "as C02 on unwrap documents", "C13": "as C02 on block documents",
-    "C14": "as C02",
+    "C11": "behaviours = one clean per generated unwrap document; non-trivial = the result differs from the source; distinct by (source, configuration); the antecedent (block style, ready unwrap-block, no tag on a wrapper line) is measured by TLC on a sample (antecedent_sample)",
+    "C12": "behaviours = one clean per generated unwrap document; non-trivial = the result differs from the source; distinct by (source, configuration); the antecedent (a dedent actually takes place) is measured by TLC on a sample (antecedent_sample)",
+    "C13": "behaviours = one clean per generated block document; non-trivial = the result differs from the source; distinct by (source, configuration)",
+    "C14": "behaviours = one clean per generated document (block, unwrap, inline); non-trivial = the result differs from the source; distinct by (source, configuration)",
     "C15": "behaviours = clean + list (JSON, pretty, JSON again) per document; non-trivial = at least one item / something removed",
     "C16": "behaviours = list and list_all in both formats per document; non-trivial = at least one item",
     "C17": "behaviours = list + list_all (JSON) per document; non-trivial = at least one item",
@@ -833,3 +835,11 @@ RULES = {
     "C19": "behaviours = one document x one configuration chain (at-once clean, then commit + clean per step); non-trivial = something was removed",
     "C20": "behaviours = one library call + one process run per option record; every behaviour counts",
 }
+
+
+ASSUMPTIONS = [
+    "TLC, the JVM, serde_json (JSON validity in the harness) and the Rust runtime's panic reporting are trusted",
+    "the reference semantics (Layer R, spec/*.tla) is written from the property texts; documents it classifies as lenient (tags outside the grammar, duplicate to/name attributes, date spellings between canonical and listed-malformed) are unconstrained and not counted as non-trivial",
+    "bounded exploration: exhaustive inside the generator bounds listed per job, seeded simulation / junk beyond them",
+    "the harness is built from /repo's working tree with the cargo feature verif-hooks, overflow checks and debug assertions on",
+]
